@@ -74,10 +74,10 @@ func RenderODT(d Doc) Rendered {
 				j++
 			}
 			style := "L1"
-			if blk.Num == "decimal" {
+			if blk.Num != "bullet" { // decimal, decimalR (a list of its own restarts the numbering)
 				style = "L2"
 			}
-			depth := -1 // deepest open list level
+			depth := -1 // deepest open list level; every open list has one open item
 			for k := i; k <= j; k++ {
 				it := d.Body[k]
 				if k > i {
@@ -87,16 +87,35 @@ func RenderODT(d Doc) Rendered {
 					b.WriteString(`</text:list-item></text:list>`)
 					depth--
 				}
+				if it.How == "cont" {
+					// a further paragraph of the item of this depth that is still open
+					// (WordDoc!ListOK), after the nested list that was just closed
+					b.WriteString(`<text:p text:style-name="Standard">`)
+					odtChildren(&b, it, cnt, k)
+					b.WriteString(`</text:p>`)
+					continue
+				}
 				if depth == it.Lvl {
 					b.WriteString(`</text:list-item>`)
 				}
-				for depth < it.Lvl { // open one more level (WordDoc!ListOK: at most one)
+				for depth < it.Lvl { // open the missing levels
 					if depth == -1 {
 						fmt.Fprintf(&b, `<text:list text:style-name="%s">`, style)
 					} else {
 						b.WriteString(`<text:list>`)
 					}
 					depth++
+					if depth < it.Lvl {
+						// the list starts deeper / jumps a level: an item that only wraps the
+						// nested list, without a paragraph or with an empty one
+						b.WriteString(`<text:list-item>`)
+						if it.How == "wrapp" {
+							b.WriteString(`<text:p text:style-name="Standard"/>`)
+						}
+					}
+				}
+				if it.How == "emp" { // an empty item of this level first
+					b.WriteString(`<text:list-item><text:p text:style-name="Standard"/></text:list-item>`)
 				}
 				b.WriteString(`<text:list-item><text:p text:style-name="Standard">`)
 				odtChildren(&b, it, cnt, k)
